@@ -260,9 +260,9 @@ func New(cfg Config) (*Stack, error) {
 			s.Close()
 			return nil, fmt.Errorf("setup block failed: %v %v", b.ValidateErr, b.ExecErr)
 		}
-		if stx.err != nil {
+		if ran, serr := stx.result(); !ran || serr != nil {
 			s.Close()
-			return nil, fmt.Errorf("setup failed: %v", stx.err)
+			return nil, fmt.Errorf("setup failed: ran=%v err=%v", ran, serr)
 		}
 		if err := b.Finalize(); err != nil {
 			s.Close()
